@@ -665,3 +665,19 @@ where
   }
   NormalReturn::new(())
 }
+
+// ---------------------------------------------------------------- C18
+pub struct CtlTwin<T>(MutRc<Vec<T>>);
+pub struct CtlTwinThreads<T>(MutArc<Vec<T>>);
+impl<T> CtlTwin<T> {
+  pub fn push(&self, v: T) { self.0.rc_deref_mut().push(v) }
+}
+impl<T> CtlTwinThreads<T> {
+  // the thread-safe twin silently drops the value when the list is long
+  pub fn push(&self, v: T) {
+    let mut g = self.0.rc_deref_mut();
+    if g.len() < 8 {
+      g.push(v)
+    }
+  }
+}
